@@ -281,7 +281,7 @@ fn during_sync(run: &mut Run, quick: bool) {
             }
             out
         };
-        let cfg = NetCfg { max_states: if quick { 6000 } else { 200000 }, max_path: 300, budget: std::time::Duration::from_secs(if quick { 12 } else { 300 }), workers: crate::util::workers() };
+        let cfg = NetCfg { max_states: if quick { 6000 } else { 200000 }, max_path: 300, budget: std::time::Duration::from_secs(if quick { 12 } else { 300 }), workers: crate::util::workers(), by_deviations: false };
         match explore_net(&mk, &none, &onq, &cfg) {
             Ok((st, findings)) => {
                 run.cov_add("states", st.states);
